@@ -56,6 +56,7 @@ class FtpTreeServer:
         for name, kind in self.tree[path]:
             if verb == 'MLSD':
                 if kind == 'symlink':
+                    rows.append('type=symlink;modify=20180101000000; %s' % name)     # (no link target in such a row)
                     continue
                 if kind == 'dir':
                     rows.append('type=dir;modify=20180101000000; %s' % name)
